@@ -27,6 +27,48 @@ class UnitOfWork(object):
         self.operations = Operations()
         self.pending_statements = []
         self.version_objs = {}
+        self.lookup_version_objs = False
+
+    def savepoint_state(self):
+        """
+        Return what has to be remembered of this UnitOfWork when a savepoint
+        is begun.
+        """
+        return {
+            'operations': self.operations.copy(),
+            'current_transaction': self.current_transaction,
+            'version_session': self.version_session,
+        }
+
+    def forget_transaction(self):
+        """
+        Remove the transaction record of this UnitOfWork from the session it
+        was attached to.
+        """
+        tx = self.current_transaction
+        if tx is not None:
+            tx_session = sa.orm.object_session(tx)
+            if tx_session is not None:
+                tx_session.expunge(tx)
+
+    def rollback_to_savepoint(self, state):
+        """
+        Take this UnitOfWork back to given state (see savepoint_state). The
+        version rows written since are gone with the savepoint, so the cached
+        version objects are forgotten; the rows that still exist are looked
+        up again when they are needed.
+        """
+        if state['current_transaction'] is None:
+            # the transaction record was created inside the savepoint
+            self.forget_transaction()
+        self.current_transaction = state['current_transaction']
+        if self.version_session is not None:
+            self.version_session.expunge_all()
+        self.version_session = state['version_session']
+        self.operations = state['operations']
+        self.pending_statements = []
+        self.version_objs = {}
+        self.lookup_version_objs = True
 
     def is_modified(self, session):
         """
@@ -144,18 +186,36 @@ class UnitOfWork(object):
         version_key = (version_cls, version_id)
 
         if version_key not in self.version_objs:
-            version_obj = version_cls()
-            self.version_objs[version_key] = version_obj
-            self.version_session.add(version_obj)
             tx_column = self.manager.option(
                 target,
                 'transaction_column_name'
             )
-            setattr(
-                version_obj,
-                tx_column,
-                self.current_transaction.id
-            )
+            version_obj = None
+            if self.lookup_version_objs:
+                # after a rollback to a savepoint the row may exist without
+                # being cached
+                mapper = sa.inspect(version_cls)
+                version_obj = self.version_session.get(
+                    version_cls,
+                    dict(
+                        (
+                            mapper.get_property_by_column(column).key,
+                            self.current_transaction.id
+                            if column.key == tx_column
+                            else getattr(target, mapper.get_property_by_column(column).key)
+                        )
+                        for column in mapper.primary_key
+                    )
+                )
+            if version_obj is None:
+                version_obj = version_cls()
+                self.version_session.add(version_obj)
+                setattr(
+                    version_obj,
+                    tx_column,
+                    self.current_transaction.id
+                )
+            self.version_objs[version_key] = version_obj
             return version_obj
         else:
             return self.version_objs[version_key]
